@@ -3,8 +3,8 @@
     about the exact-rational instance [Qops] of the generic policy code of
     C10/Model.v (the binary64 instance [Fops] of the same code is what the
     correspondence compares with /repo off the dyadic grid).  Times are ns. *)
-From HS Require Import Base.Prelude C10.Model C10.QFacts C10.TokenBucket C10.Leaky C10.Sliding C10.Fixed C10.Adaptive.
-From Coq Require Import QArith.
+From HS Require Import Base.Prelude C10.Model C10.QFacts C10.TokenBucket C10.Leaky C10.Sliding C10.Fixed C10.Adaptive C10.Entity.
+From Coq Require Import QArith Permutation.
 Local Open Scope Q_scope.
 
 (* ------------------------------------------------------------------ token bucket *)
@@ -175,3 +175,37 @@ Theorem c10_adaptive_progress : forall (p : adp Qops) (s : ads Qops) now,
   w3 = 0%Z /\ (0 <= w1)%Z /\ (0 <= w2)%Z.
 Proof. exact ad_tua_progress. Qed.
 Print Assumptions c10_adaptive_progress.
+
+(* ------------------------------------------------------------------ RateLimitedEntity, over ANY policy *)
+(** Every request is forwarded, still queued, or dropped exactly once; received = forwarded + queued + dropped;
+    no request is forwarded twice.  For arbitrary policy functions, any capacity, any input sequence. *)
+Theorem c10_entity_exactly_once : forall PS pacq ptua cap ps ins,
+  let '(e', outs, dr) := ent_run PS pacq ptua cap (ent_init PS ps) ins in
+  Permutation (req_ids ins) (fwd_ids outs ++ e_queue e' ++ dr) /\
+  (e_recv e' = e_fwd e' + Z.of_nat (length (e_queue e')) + e_drop e')%Z /\
+  (NoDup (req_ids ins) -> NoDup (fwd_ids outs)).
+Proof. exact ent_exactly_once. Qed.
+Print Assumptions c10_entity_exactly_once.
+
+Theorem c10_entity_conservation : forall PS pacq ptua cap ins (e : ent PS),
+  let '(e', outs, dr) := ent_run PS pacq ptua cap e ins in
+  Permutation (e_queue e ++ req_ids ins) (fwd_ids outs ++ e_queue e' ++ dr) /\
+  (e_recv e' = e_recv e + Z.of_nat (length (req_ids ins)))%Z /\
+  (e_fwd e' = e_fwd e + Z.of_nat (length (fwd_ids outs)))%Z /\
+  (e_drop e' = e_drop e + Z.of_nat (length dr))%Z.
+Proof. exact ent_conservation. Qed.
+Print Assumptions c10_entity_conservation.
+
+(** "forwards requests in arrival order": REFUTED on the faithful model (known finding
+    C10-entity-arrival-overtakes-queue), for schedules the engine can produce. *)
+Theorem c10_entity_fifo_refuted : ~ fifo_statement.
+Proof. exact ent_fifo_refuted. Qed.
+Print Assumptions c10_entity_fifo_refuted.
+
+(** ... and what does hold: arrival order is kept by every run in which no request is admitted
+    on arrival while earlier requests are still queued (in particular the buffer itself is FIFO). *)
+Theorem c10_entity_fifo_partial : forall PS pacq ptua cap ps ins,
+  incr (-1) (req_ids ins) -> no_overtake PS pacq ptua cap (ent_init PS ps) ins ->
+  incr (-1) (fwd_ids (snd (fst (ent_run PS pacq ptua cap (ent_init PS ps) ins)))).
+Proof. exact ent_fifo_partial. Qed.
+Print Assumptions c10_entity_fifo_partial.
